@@ -25,6 +25,12 @@ import traceback
 from harness import load
 
 EXIT_OK, EXIT_VIOLATION, EXIT_HARNESS = 0, 1, 2
+# sensitivity / seeded-change runs (VERIF_SENS=1) must not touch committed evidence/replays
+OUT_ROOT = (
+    os.path.join(load.VERIF_ROOT, ".work", "sens")
+    if os.environ.get("VERIF_SENS") == "1"
+    else load.VERIF_ROOT
+)
 
 
 # --------------------------------------------------------------------------- SUT calls
@@ -462,10 +468,42 @@ def run_property(mod, tier, base_seed, only=None, jobs=None):
         if not ps["exhaustive"] or ps["skipped_for_time_budget"]:
             all_exhaustive = False
 
+    # ---- regression tier: saved shrunk inputs of earlier findings / seeded changes
+    regress_violations = []
+    n_regress = 0
+    if only is None:
+        import glob
+
+        sel = getattr(mod, "SELECTORS", {})
+        scmap = {s.name: s for s in scs}
+        for path in sorted(
+            glob.glob(os.path.join(load.VERIF_ROOT, "regress", prop, "*.json"))
+        ):
+            with open(path) as f:
+                rec = json.load(f)
+            sc = scmap.get(rec.get("subcheck"))
+            if sc is None:
+                continue
+            try:
+                _, discs = run_oracle(mod, sc, rec["case"], tier, replay=True)
+            except load.HarnessError as e:
+                harness_errors.append("regress %s: %s" % (path, e))
+                continue
+            n_regress += 1
+            unknown = [
+                d
+                for d in discs
+                if match_known(open_entries, sel, sc.name, rec["case"], d) is None
+            ]
+            if unknown:
+                regress_violations.append(
+                    (unknown[0], os.path.relpath(path, load.VERIF_ROOT))
+                )
+
     # ---- replays for violations
     replay_paths = []
     for v in violations:
-        d = os.path.join(load.VERIF_ROOT, "replays", prop)
+        d = os.path.join(OUT_ROOT, "replays", prop)
         os.makedirs(d, exist_ok=True)
         kind = v["discrepancies"][0]["kind"]
         tag = hashlib.sha1(
@@ -513,16 +551,15 @@ def run_property(mod, tier, base_seed, only=None, jobs=None):
             ],
             "fixed_findings": [e["id"] for e in fixed_entries],
             "excluded_by_construction": getattr(mod, "EXCLUDED", []),
+            "regression_inputs_replayed": n_regress,
         },
         "assumptions": list(getattr(mod, "ASSUMPTIONS", [])) + COMMON_ASSUMPTIONS,
         "wall_s": round(wall, 2),
-        "violations": len(violations),
+        "violations": len(violations) + len(regress_violations),
     }
     if only is None and not harness_errors:
-        os.makedirs(os.path.join(load.VERIF_ROOT, "evidence"), exist_ok=True)
-        with open(
-            os.path.join(load.VERIF_ROOT, "evidence", "%s.json" % prop), "w"
-        ) as f:
+        os.makedirs(os.path.join(OUT_ROOT, "evidence"), exist_ok=True)
+        with open(os.path.join(OUT_ROOT, "evidence", "%s.json" % prop), "w") as f:
             json.dump(evidence, f, indent=1, default=str)
 
     # ---- report
@@ -552,7 +589,11 @@ def run_property(mod, tier, base_seed, only=None, jobs=None):
         for h in harness_errors[:5]:
             sys.stderr.write("HARNESS-ERROR: %s\n" % h)
         return EXIT_HARNESS
-    if violations:
+    if regress_violations:
+        for d0, p in regress_violations:
+            print("  violation on saved input %s: %s -- %s" % (p, d0["kind"], d0["detail"]))
+            print("VIOLATION property=%s replay=%s" % (prop, p))
+    if violations or regress_violations:
         for v, p in replay_paths:
             d0 = v["discrepancies"][0]
             print(
